@@ -82,3 +82,8 @@ CHECKS["C18"] = ("exploration",
   "PSO runs over swarm sizes 1-12, dimensions 1-5, the full coefficient ranges (including c1 = c2 = 0 for an exact inertia check), v_max from 0.001 to 10 domain widths, five objective kinds and 1-20 iterations are audited after every velocity update (clamp, exact move, unevaluated, interval hull with the stored inertia weight), after every inertia mapping (bit-exact linear interpolation at the loop's progress) and after every swarm update (personal best == minimum of that particle's harness-tracked evaluated history, global best == best personal best, one entry per particle).",
   "Hook: step observer. The hull check has a 1e-9 relative tolerance.",
   "DESIGN.md §6 C18")
+CHECKS["C19"] = ("exploration",
+  "proptest over runs of both ACO templates (1-200 iterations, so trails reach underflow and saturation) audited at every generation and pheromone update through the step observer against a validity predicate (tours) and a same-order reference computation (updates), plus direct component cases on prepared matrices",
+  "Runs of ant_system and max_min_ant_system over TSP sizes 3-8, three kinds of distance matrices (ratios up to 1e9), the whole parameter ranges and up to 200 iterations are audited: every generation must yield ants + 1 unevaluated permutations starting at city 0 with a greedy first tour w.r.t. the matrix observed before; every update must equal, entry by entry within 4 ulp, evaporation followed by symmetric reinforcement of exactly the consecutive edges of the rewarded tours (all sampled tours / the best sampled tour), stay finite and non-negative and, for the max-min variant, inside [min, max] everywhere off the diagonal.",
+  "Hooks: step observer, ACO parameter constructors. Tour length = objective value of the tour. Prepared matrices stay within reachable magnitudes (<= 1e6).",
+  "DESIGN.md §6 C19")
